@@ -61,9 +61,24 @@ def find_function(modname, qual):
     tree = module_ast(modname)
     body = tree.body
     node = None
-    for part in qual.split('.'):
+    def defs_in(stmts):
+        # definitions at this level, including those nested in compound statements (if/try/with/for ...),
+        # but not those inside other function or class bodies
+        for n in stmts:
+            if isinstance(n, (ast.FunctionDef, ast.AsyncFunctionDef, ast.ClassDef)):
+                yield n
+                continue
+            for field in ('body', 'orelse', 'finalbody'):
+                sub = getattr(n, field, None)
+                if isinstance(sub, list):
+                    for m in defs_in(sub):
+                        yield m
+            for h in getattr(n, 'handlers', []) or []:
+                for m in defs_in(h.body):
+                    yield m
+    for k, part in enumerate(qual.split('.')):
         node = None
-        for n in body:
+        for n in (body if k == 0 else defs_in(body)):
             if isinstance(n, (ast.FunctionDef, ast.AsyncFunctionDef, ast.ClassDef)) and n.name == part:
                 node = n     # the last definition of a name wins, as in Python
         if node is None:
@@ -375,6 +390,7 @@ class Exec(Engine):
             self.pure += 1
             saved = self.pending_defined
             self.pending_defined = []
+            self.last_comp = None
             try:
                 r = reclists.comprehension_over_reclist(self, node, st)
                 guards = self.pending_defined
@@ -382,7 +398,7 @@ class Exec(Engine):
                 self.pure -= 1
                 self.pending_defined = saved
             if r is not None:
-                var, rl = self.last_comp
+                var, rl = self.last_comp if self.last_comp else (None, None)
                 for g in guards:
                     goal = smt.ForAll([var], Implies(And(Le(IntV(0), var), Lt(var, rl.n)), g))
                     self.oblige('pre', 'comprehension-element-defined', st, goal, node)
@@ -595,6 +611,12 @@ class Exec(Engine):
                     except (TypeError, ValueError):
                         pass
                 return [(VExc(obj, attrs), st)]
+            import re as _re_mod
+            if isinstance(getattr(obj, '__self__', None), _re_mod.Pattern) and hasattr(_re_mod, getattr(obj, '__name__', '')):
+                # compiled_pattern.sub(...) etc.: the module-level function with the pattern as first argument
+                fn_mod = getattr(_re_mod, obj.__name__)
+                if fn_mod in self.models:
+                    return self.models[fn_mod](self, [VPy(obj.__self__)] + args, kwargs, st, node)
             # pure builtin on fully concrete arguments: evaluate natively
             cargs = [self.concrete(a, st) for a in args]
             ckw = {k: self.concrete(a, st) for k, a in kwargs.items()}
@@ -789,6 +811,18 @@ class Exec(Engine):
 
     def inline_call(self, vf, args, kwargs, st, node):
         fnode = vf.node
+        if self.cur_contract is not None and not isinstance(fnode, ast.Lambda) and vf.frame is not None:
+            nq = '%s:%s.%s' % (vf.modname, self.cur_contract.func.split('#')[0], vf.name)
+            nc = C.CONTRACTS.get(nq)
+            if nc is not None and nc is not self.cur_contract:
+                # a nested function under its own contract: closure variables are passed as extra named arguments
+                kw2 = dict(kwargs)
+                for cname in nc.opts.get('closure', {}):
+                    cv = st.lookup(cname)
+                    if cv is None:
+                        raise Undecided('closure variable %s of %s is not bound' % (cname, nq), node)
+                    kw2['__closure__' + cname] = cv
+                return self.apply_contract(nc, None, args, kw2, st, node)
         if st.depth > 12:
             raise Undecided('inlining too deep', node)
         defaults = vf.defaults if isinstance(vf.defaults, dict) else {}
@@ -837,7 +871,18 @@ class Exec(Engine):
         fnode = find_function(c.module, c.func)
         if fnode is None:
             raise Undecided('contract %s: function not found in source' % c.qualname, node)
-        bound = self.bind_params(fnode.args, self.defaults_of(fn) if fn is not None else {}, args, kwargs, st, node)
+        closure_vals = {k[len('__closure__'):]: v for k, v in kwargs.items() if k.startswith('__closure__')}
+        kwargs = {k: v for k, v in kwargs.items() if not k.startswith('__closure__')}
+        if fn is None and c.opts.get('closure') is not None:
+            # nested function: defaults from the def node
+            dflt = {}
+            pos = fnode.args.posonlyargs + fnode.args.args
+            for a, d in zip(pos[len(pos) - len(fnode.args.defaults):], fnode.args.defaults):
+                dflt[a.arg] = self.ev1(d, st)
+            bound = self.bind_params(fnode.args, dflt, args, kwargs, st, node)
+        else:
+            bound = self.bind_params(fnode.args, self.defaults_of(fn) if fn is not None else {}, args, kwargs, st, node)
+        bound.update(closure_vals)
         if c.trusted:
             self.trusted_used.add('contract:' + c.qualname)
         if self.pure or c.opts.get('substitute'):
@@ -2090,6 +2135,7 @@ class Exec(Engine):
         if 'region' in c.opts:
             # a region of a long function: the live-in locals are the declared parameters
             names = list(c.params)
+        names = names + [n for n in c.opts.get('closure', {}) if n not in names]
         result = []
         for combo in itertools.product(*[range(n) for _, n in ufields]):
             self.union_choice = {name: k for (name, _), k in zip(ufields, combo)}
